@@ -364,14 +364,6 @@ func rigid(m []float64, n int) bool {
 	return true
 }
 
-func ratSum(xs ...float64) *big.Rat {
-	s := new(big.Rat)
-	for _, x := range xs {
-		s.Add(s, rat(x))
-	}
-	return s
-}
-
 func ratLess(a, b *big.Rat) bool { return a.Cmp(b) < 0 }
 
 // camOK mirrors cam_okb (Sdf/ReifyCheck.v), exactly: 0 < d, 0 <= b, 0 <= n, |b - n| < d
@@ -644,8 +636,7 @@ func (r *reifier) wfOf(n *sdf.VerifShape) string {
 	case "FlatFlankCam", "Flange1":
 		w = cond(camOK(n.F[0], n.F[1], n.F[2]), "needs 0 < distance, radii >= 0, |radius difference| < distance")
 	case "ThreeArcCam":
-		w = or(cond(camOK(n.F[0], n.F[1], n.F[2]), "needs 0 < distance, radii >= 0, |radius difference| < distance"),
-			cond(ratLess(ratSum(n.F[1], n.F[0], n.F[2]), new(big.Rat).Mul(big.NewRat(2, 1), rat(n.F[3]))), "flank radius not above (base + distance + nose)/2"))
+		w = cond(camOK(n.F[0], n.F[1], n.F[2]), "needs 0 < distance, radii >= 0, |radius difference| < distance")
 	case "ArcSpiral":
 		w = cond(n.F[4] >= 0, "negative band half-width d")
 	case "Rack2":
